@@ -10,7 +10,6 @@ import (
 	"fmt"
 	"math/big"
 	"strings"
-	"sync/atomic"
 	"time"
 
 	"github.com/btcsuite/btcd/btcec/v2"
@@ -103,6 +102,13 @@ func showECDSA(sig *ecdsa.Signature, err error) string {
 // Exec runs one line with a watchdog: a signer that never terminates (its self-verification failing on every
 // retry) must surface as a disagreement, not as a hung check.
 func (P) Exec(line string) string {
+	op := ""
+	if f := strings.Fields(line); len(f) > 1 {
+		op = f[1]
+	}
+	if hungOps[op] {
+		return "timeout" // this op already hung once in this run: do not start another spinning goroutine
+	}
 	ch := make(chan string, 1)
 	go func() {
 		defer func() {
@@ -115,13 +121,13 @@ func (P) Exec(line string) string {
 	select {
 	case out := <-ch:
 		return out
-	case <-time.After(time.Duration(watchdogSecs.Load()) * time.Second):
-		watchdogSecs.Store(2) // after the first hang do not wait long again
+	case <-time.After(20 * time.Second):
+		hungOps[op] = true
 		return "timeout"
 	}
 }
 
-var watchdogSecs = func() *atomic.Int64 { v := new(atomic.Int64); v.Store(20); return v }()
+var hungOps = map[string]bool{}
 
 func exec1(line string) string {
 	f := strings.Fields(line)
